@@ -3,7 +3,7 @@
    abs : st -> ast is the observable table of a concrete state (V.C12.ProofsRef);  Inv is the ledger invariant
    (V.C12.ProofsInv);  wf_op: ids >= 0, numbers 32-bit, symbols NUL-free, atoms < 2^31.                       *)
 Require Import V.Lib.Base V.Lib.Calls V.Gen.Consts V.Gen.Consts_C12 V.C12.Spec V.C12.Model
-  V.C12.ProofsBase V.C12.ProofsInv V.C12.ProofsRef V.C12.ProofsHist V.C12.ProofsVisit V.C12.ProofsFinal.
+  V.C12.ProofsBase V.C12.ProofsInv V.C12.ProofsRef V.C12.ProofsHist V.C12.ProofsVisit V.C12.ProofsClosure V.C12.ProofsFinal.
 Require Import Permutation.
 Local Open Scope Z_scope.
 
@@ -97,14 +97,23 @@ Theorem c12_visit_sound : forall cur a x, Forall (vref_ok cur a) (fst (s_accept_
 Proof. exact s_accept_atom_sound. Qed.
 Print Assumptions c12_visit_sound.
 
-(* the recursive printing visitor used by the harness (marks an item before descending): it terminates within its fuel,
-   never faults, and every call it emits is the directive of a stored item (a new one / a current-step atom in mode
-   current).  PARTIAL: that it emits EVERY item reachable from the atoms (completeness of the closure) is not proved here;
-   the one-level exactness above is proved, the closure is checked by the oracle's independent reachability computation. *)
-Theorem c12_visitor_partial : forall cur s, Inv s ->
+(* the recursive printing visitor used by the harness (marks an item before descending, so cyclic terms terminate):
+   it terminates within its fuel, never faults, every call it emits is the directive of a stored item
+   (a new one / a current-step atom in mode current) ... *)
+Theorem c12_visitor_sound : forall cur s, Inv s ->
   Forall (call_ok cur (abs s)) (fst (visit cur s)) /\ snd (visit cur s) <> EC_FAULT.
 Proof. exact visit_sound. Qed.
-Print Assumptions c12_visitor_partial.
+Print Assumptions c12_visitor_sound.
+(* ... and when it finishes without error it has emitted every atom handed out by accept() (all atoms; in mode current
+   those after the mark) and every element / term reachable from them along the references accept() follows in that mode
+   (rT / rE: the least sets closed under atom -> term, guard, rhs, elements; element -> terms; term -> arguments, function symbol;
+   in mode current only through new items) *)
+Theorem c12_visitor_complete : forall cur s, Inv s -> snd (visit cur s) = 0 ->
+  (forall x, In x (top cur s) -> In (call_of_atom x) (fst (visit cur s))) /\
+  (forall e, rE cur s e -> exists x, E (abs s) e = Some x /\ In (call_of_elem e x) (fst (visit cur s))) /\
+  (forall i, rT cur s i -> exists t, T (abs s) i = Some t /\ In (call_of_term i t) (fst (visit cur s))).
+Proof. exact visit_complete. Qed.
+Print Assumptions c12_visitor_complete.
 
 (* print(): what was added comes back as the directive that was added *)
 Theorem c12_print : forall s, Inv s ->
